@@ -490,7 +490,7 @@ func c11Lab(t *testing.T) {
 // at the user agent exactly once and intact, whatever the segmentation and
 // however often the connection has been used before.
 func c11ReturnStreams(t *testing.T, s *stdSvc) {
-	V.Require("lab: segmented response stream on a proxy-opened connection relayed intact")
+	V.Require("lab: segmented response stream on a proxy-opened connection relayed intact", "lab: response stream on the connection to a tcp backend")
 	// the hop must be known to the proxy, otherwise it does not put itself into
 	// the Via chain and the responses would not come back through it
 	if err := s.primeHops(); err != nil {
@@ -501,10 +501,19 @@ func c11ReturnStreams(t *testing.T, s *stdSvc) {
 		ua := s.uas[rapid.IntRange(0, 3).Draw(rt, "ua")]
 		k := rapid.IntRange(2, 6).Draw(rt, "requests")
 		send := func(b []byte) error { return ua.sendUDP(l.Addr, l.UDPPort, b) }
+		// the peer: a statically routed TCP hop, or the TCP backend of the listen
+		// entry (which was listening before the proxy started)
+		toBackend := rapid.Bool().Draw(rt, "peer is the tcp backend")
+		target, peerIP, peerPort := "x@r.wtcp.test", s.ip(24), 5070
+		if toBackend {
+			target, peerIP, peerPort = "svc.test", s.ip(33), 5080
+			k *= 3 // two of three land on the UDP backends of the rotation
+			V.Class("lab: response stream on the connection to a tcp backend")
+		}
 		var reqs []labRx
 		for i := 0; i < k; i++ {
 			id := s.nextID("c11r-")
-			wire := []byte(fmt.Sprintf("MESSAGE sip:x@r.wtcp.test SIP/2.0\r\nVia: SIP/2.0/UDP %s:5060;branch=z9hG4bK%s;rport\r\nMax-Forwards: 70\r\nFrom: <sip:a@a.example>;tag=%s\r\nTo: <sip:x@r.wtcp.test>\r\nCall-ID: %s\r\nCSeq: 1 MESSAGE\r\nContent-Length: 0\r\n\r\n", ua.ip, id, id, id))
+			wire := []byte(fmt.Sprintf("MESSAGE sip:%s SIP/2.0\r\nVia: SIP/2.0/UDP %s:5060;branch=z9hG4bK%s;rport\r\nMax-Forwards: 70\r\nFrom: <sip:a@a.example>;tag=%s\r\nTo: <sip:%s>\r\nCall-ID: %s\r\nCSeq: 1 MESSAGE\r\nContent-Length: 0\r\n\r\n", target, ua.ip, id, id, strings.Replace(target, "svc.test", "svc@nomatch.example", 1), id))
 			s.model.learnRequest(s.model.transport(0, "udp"), ua.ip, &AMsg{IsReq: true, Hdrs: []AHdr{{Kind: hVia, Vias: []AVia{{Host: ua.ip}}}}})
 			s.in.expect(wire)
 			if err := send(wire); err != nil {
@@ -517,13 +526,19 @@ func c11ReturnStreams(t *testing.T, s *stdSvc) {
 				V.HarnessError(rt, "%v", err)
 			}
 			got := labMessages(rs)
-			if len(got) != 1 || got[0].tcp == nil || got[0].ep == nil || got[0].ep.ip != s.ip(24) || got[0].ep.port != 5070 {
-				return // where a statically routed request goes is C03's and C18's subject
+			if toBackend && len(got) == 1 && got[0].tcp == nil && s.isBackendOf(got[0].ep, 0, false) {
+				continue // a UDP backend's turn
+			}
+			if len(got) != 1 || got[0].tcp == nil || got[0].ep == nil || got[0].ep.ip != peerIP || got[0].ep.port != peerPort {
+				return // where a request goes is C03's, C05's and C18's subject
 			}
 			if len(got[0].msg.Entries(hVia)) != 2 {
 				return // the proxy did not insert itself (C06's subject): no response path through it
 			}
 			reqs = append(reqs, got[0])
+		}
+		if len(reqs) == 0 {
+			return
 		}
 		conn := reqs[len(reqs)-1].tcp
 		if conn.isDead() {
